@@ -563,6 +563,7 @@ pub fn engine_ckpt(rt: &tokio::runtime::Runtime, cases: Vec<Value>, out: &mut Nd
         let root = base.join(format!("ws-{}", uuid::Uuid::new_v4().simple()));
         std::fs::create_dir_all(&root).unwrap();
         ckpt_materialise(&root, &case["fs0"]);
+        plant_bystanders(&root, &paths);
         let _ = std::env::set_current_dir(if cwd_mode == "root" { &root } else { &elsewhere });
         let mode = case["mode"].as_str().unwrap_or("direct");
         let steps = case["steps"].as_array().cloned().unwrap_or_default();
@@ -697,6 +698,57 @@ pub fn engine_ckpt(rt: &tokio::runtime::Runtime, cases: Vec<Value>, out: &mut Nd
     let _ = std::fs::remove_dir_all(&base);
 }
 
+/// Files next to the model's paths that no operation names and no checkpoint covers (editor / tool leftovers with the same stem).
+const BYSTANDER_SUFFIXES: [&str; 6] = [".tmp", ".bak", ".orig", "~", ".swp", ".lock"];
+
+fn plant_bystanders(root: &Path, paths: &[String]) {
+    for p in paths {
+        for suf in BYSTANDER_SUFFIXES {
+            let full = root.join(format!("{p}{suf}"));
+            if let Some(parent) = full.parent() {
+                if std::fs::create_dir_all(parent).is_err() {
+                    continue;
+                }
+            }
+            write_file(&full, &format!("bystander-{p}{suf}\n"));
+        }
+    }
+}
+
+/// (bystanders that changed or vanished, entries that are neither model paths nor bystanders nor the store)
+fn observe_bystanders(root: &Path, paths: &[String]) -> (Vec<String>, Vec<String>) {
+    let mut changed = Vec::new();
+    let mut known: std::collections::BTreeSet<String> = paths.iter().cloned().collect();
+    for p in paths {
+        for suf in BYSTANDER_SUFFIXES {
+            let name = format!("{p}{suf}");
+            let full = root.join(&name);
+            let planted = full.parent().map(|d| d.is_dir()).unwrap_or(false) || full.exists();
+            if planted && std::fs::read_to_string(&full).ok() != Some(format!("bystander-{name}\n")) {
+                // a parent that was never a directory (the model made it a file) means the bystander was never planted
+                if full.parent().map(|d| d.is_dir()).unwrap_or(false) {
+                    changed.push(name.clone());
+                }
+            }
+            known.insert(name);
+        }
+    }
+    let mut strays = Vec::new();
+    for dir in ["", "d"] {
+        if let Ok(rd) = std::fs::read_dir(root.join(dir)) {
+            for e in rd.flatten() {
+                let n = e.file_name().to_string_lossy().to_string();
+                let rel = if dir.is_empty() { n.clone() } else { format!("{dir}/{n}") };
+                if rel == ".rip" || rel == "d" || known.contains(&rel) {
+                    continue;
+                }
+                strays.push(rel);
+            }
+        }
+    }
+    (changed, strays)
+}
+
 fn step_observe(events: &[Value], cp_ids: &mut Vec<String>, root: &Path, paths: &[String], obs: &mut Vec<Value>) {
     let kinds: Vec<String> = events.iter().map(|e| e["type"].as_str().unwrap_or("").to_string()).collect();
     let created: Vec<&Value> = events.iter().filter(|e| e["type"] == "checkpoint_created").collect();
@@ -714,8 +766,10 @@ fn step_observe(events: &[Value], cp_ids: &mut Vec<String>, root: &Path, paths: 
         (None, Some(_)) => false,
         _ => true,
     };
+    let (by_changed, strays) = observe_bystanders(root, paths);
     obs.push(json!({
         "ok": ok, "fs": ckpt_observe(root, paths), "ncp": cp_ids.len(), "kinds": kinds, "auto_before_tool": auto_before_tool,
+        "by_changed": by_changed, "strays": strays,
         "auto_files": created.first().map(|c| c["files"].clone()).unwrap_or(Value::Null),
         "auto": created.first().map(|c| c["auto"].clone()).unwrap_or(Value::Null),
     }));
